@@ -593,6 +593,29 @@ func (nm *NodeMachine) Apply(op NOp) error {
 					tx.TxOutputs[0].Amount = a.Add(a, big.NewInt(1000000)).Bytes()
 					SignTx(tx, Ring[op.Txs[i].From])
 					tx.ModifyBlock = &pb.ModifyBlock{Marked: true, EffectiveHeight: height, EffectiveTxid: "00"}
+				case op.TxMut == "dropread":
+					// a written (or deleted) key is taken out of the read set: undo could not restore its previous version
+					mutated = false
+					// deletions first (undoing a blind delete wipes the key instead of restoring it)
+					outs := append([]*protos.TxOutputExt{}, tx.TxOutputsExt...)
+					sort.SliceStable(outs, func(a, b int) bool {
+						return string(outs[a].Value) == DelFlag && string(outs[b].Value) != DelFlag
+					})
+					for _, oe := range outs {
+						if oe.Bucket == TransientBucket || mutated {
+							continue
+						}
+						for j, ie := range tx.TxInputsExt {
+							if ie.Bucket == oe.Bucket && bytes.Equal(ie.Key, oe.Key) {
+								tx.TxInputsExt = append(tx.TxInputsExt[:j:j], tx.TxInputsExt[j+1:]...)
+								mutated = true
+								break
+							}
+						}
+					}
+					if mutated {
+						SignTx(tx, Ring[op.Txs[i].From])
+					}
 				case op.TxMut == "othersig":
 					SignTx(tx, Ring[(op.Txs[i].From+1)%5])
 				default:
@@ -602,7 +625,7 @@ func (nm *NodeMachine) Apply(op NOp) error {
 					tx.Txid, _ = txhash.MakeTransactionID(tx)
 					nm.Unauth[string(tx.Txid)] = true
 					valid = false
-					whyNot = fmt.Sprintf("transaction %s is not signed by its initiator / does not balance (%s)", Hex8(tx.Txid), op.TxMut)
+					whyNot = fmt.Sprintf("transaction %s is not signed by its initiator / does not balance / writes a key it does not read (%s)", Hex8(tx.Txid), op.TxMut)
 					nm.Stat["peer-unsigned-tx:"+op.TxMut]++
 				}
 			}
